@@ -47,7 +47,8 @@ enum Tr {
 
 struct CConn {
 	tr: Tr,
-	wr: Option<OwnedWriteHalf>,
+	/// shared with the reader task, which answers the server's pings
+	wr: Option<Arc<tokio::sync::Mutex<OwnedWriteHalf>>>,
 	reader: Option<JoinHandle<()>>,
 	quit: Option<oneshot::Sender<()>>,
 	gone: bool,
@@ -78,7 +79,15 @@ fn note_action(shared: &Shared, text: String, out: &str) {
 	shared.note(format!("A {text}|{out}"));
 }
 
-fn spawn_reader(shared: Arc<Shared>, c: u64, tr: Tr, mut rd: tokio::net::tcp::OwnedReadHalf, mut buf: Vec<u8>, mut quit: oneshot::Receiver<()>) -> JoinHandle<()> {
+fn spawn_reader(
+	shared: Arc<Shared>,
+	c: u64,
+	tr: Tr,
+	mut rd: tokio::net::tcp::OwnedReadHalf,
+	mut buf: Vec<u8>,
+	mut quit: oneshot::Receiver<()>,
+	wr: Arc<tokio::sync::Mutex<OwnedWriteHalf>>,
+) -> JoinHandle<()> {
 	let slow = SLOW_READER.load(std::sync::atomic::Ordering::Relaxed);
 	tokio::spawn(async move {
 		if slow {
@@ -103,6 +112,13 @@ fn spawn_reader(shared: Arc<Shared>, c: u64, tr: Tr, mut rd: tokio::net::tcp::Ow
 							match read_ws_frame(&mut rd, &mut buf).await {
 								Ok(Some((1, p))) => break Some(reply_ids_fast(&p)),
 								Ok(Some((8, _))) | Ok(None) | Err(_) => break None,
+								Ok(Some((9, payload))) => {
+									// a live client: every ping is answered at once
+									let mut w = wr.lock().await;
+									let _ = w.write_all(&ws_frame(0xA, &payload)).await;
+									let _ = w.flush().await;
+									continue;
+								}
 								Ok(Some(_)) => continue,
 							}
 						},
@@ -155,7 +171,8 @@ impl Run {
 
 	async fn write(&mut self, c: u64, bytes: &[u8]) {
 		if let Some(x) = self.conns.get_mut(&c) {
-			if let Some(w) = x.wr.as_mut() {
+			if let Some(w) = x.wr.as_ref() {
+				let mut w = w.lock().await;
 				let _ = w.write_all(bytes).await;
 				let _ = w.flush().await;
 			}
@@ -171,8 +188,9 @@ impl Run {
 				let _ = r.await;
 			}
 			if let Some(w) = x.wr.take() {
+				// (the reader task — the only other owner — has ended above)
 				if reset {
-					let _ = w.as_ref().set_zero_linger();
+					let _ = w.lock().await.as_ref().set_zero_linger();
 				}
 				drop(w);
 			}
@@ -238,8 +256,9 @@ impl Run {
 				match ok {
 					Some(conn) => {
 						let (rd, wr) = conn.sock.into_split();
+						let wr = Arc::new(tokio::sync::Mutex::new(wr));
 						let (qtx, qrx) = oneshot::channel();
-						let reader = spawn_reader(shared.clone(), c, tr, rd, conn.buf, qrx);
+						let reader = spawn_reader(shared.clone(), c, tr, rd, conn.buf, qrx, wr.clone());
 						self.conns.insert(c, CConn { tr, wr: Some(wr), reader: Some(reader), quit: Some(qtx), gone: false });
 						note_action(&shared, format!("open {c} {trs} ok"), "ok");
 					}
@@ -294,6 +313,11 @@ impl Run {
 				}
 				note_action(&shared, "yield".into(), "ok");
 			}
+			"sleep" => {
+				// real time has to pass (the server's ping / inactivity timers run on the wall clock)
+				tokio::time::sleep(std::time::Duration::from_millis(num(1).min(8000))).await;
+				note_action(&shared, format!("sleep {}", num(1)), "ok");
+			}
 			"rel" => {
 				let k = num(1);
 				note_action(&shared, format!("rel {k}"), "ok");
@@ -347,8 +371,9 @@ impl Run {
 				match Conn::open(self.env.addr).await {
 					Ok(conn) => {
 						let (rd, wr) = conn.sock.into_split();
+						let wr = Arc::new(tokio::sync::Mutex::new(wr));
 						let (qtx, qrx) = oneshot::channel();
-						let reader = spawn_reader(shared.clone(), c, Tr::Http, rd, conn.buf, qrx);
+						let reader = spawn_reader(shared.clone(), c, Tr::Http, rd, conn.buf, qrx, wr.clone());
 						self.conns.insert(c, CConn { tr: Tr::Http, wr: Some(wr), reader: Some(reader), quit: Some(qtx), gone: false });
 						note_action(&shared, format!("popen {c} ok"), "ok");
 					}
@@ -363,8 +388,8 @@ impl Run {
 				if half {
 					// the client shuts down its sending side and keeps reading: for the server the peer is gone
 					note_action(&shared, format!("gone {c} half"), "ok");
-					if let Some(w) = x.wr.as_mut() {
-						let _ = w.shutdown().await;
+					if let Some(w) = x.wr.as_ref() {
+						let _ = w.lock().await.shutdown().await;
 					}
 				} else {
 					note_action(&shared, format!("gone {c}"), "ok");
@@ -401,9 +426,9 @@ impl Run {
 	}
 }
 
-const ACTIONS: [&str; 20] = [
+const ACTIONS: [&str; 21] = [
 	"open", "send", "sub", "wsub", "rel", "relall", "yield", "stop", "drop", "gone", "wstart", "wfin", "wresp", "weof", "wres", "end", "hclone", "hdropc",
-	"isstopped", "popen",
+	"isstopped", "popen", "sleep",
 ];
 
 struct Header {
@@ -414,6 +439,9 @@ struct Header {
 	/// the server runs on a runtime of its own that is torn down the moment `stopped()` resolves
 	own_rt: bool,
 	slow_read: bool,
+	/// ping limits well below the length of the drain: interval 250 ms, inactive_limit 1000 ms,
+	/// max_failures 2 (the client answers pings; a stall of the harness of about a second is harmless)
+	ping_short: bool,
 }
 
 fn parse_header(l: &str) -> Option<Header> {
@@ -429,6 +457,7 @@ fn parse_header(l: &str) -> Option<Header> {
 		close_hdr: opts.contains(&"closehdr"),
 		own_rt: opts.contains(&"ownrt"),
 		slow_read: opts.contains(&"slowread"),
+		ping_short: opts.contains(&"pingshort"),
 	})
 }
 
@@ -495,8 +524,8 @@ async fn run_case(lines: &[String], out: &mut Out) -> bool {
 	};
 	// ping: frames flow in both phases (the writer's ping branch is live during the drain); the
 	// inactivity limit is far away, so no session ends because the harness never answers pings
-	let ping = h.ping.then_some((10u64, 600_000u64));
-	let ecfg = EnvCfg { assembly: h.assembly, max: 50, http: true, ws: true, ping, buffer: h.cap };
+	let ping = if h.ping_short { Some((250u64, 1000u64)) } else { h.ping.then_some((10u64, 600_000u64)) };
+	let ecfg = EnvCfg { assembly: h.assembly, max: 50, http: true, ws: true, ping, ping_failures: if h.ping_short { 2 } else { 1 }, buffer: h.cap };
 	SLOW_READER.store(h.slow_read, std::sync::atomic::Ordering::Relaxed);
 	// `ownrt`: what a typical `main` does — the server lives on its own runtime, `stopped().await`,
 	// then everything is torn down at once.  Whatever the server still had to do is lost.
@@ -564,6 +593,7 @@ async fn run_case(lines: &[String], out: &mut Out) -> bool {
 	let gone: BTreeSet<u64> = run.conns.iter().filter(|(_, x)| x.gone).map(|(c, _)| *c).collect();
 	let orc = oracle(&log, &gone, &run.call_conn);
 	// emit the lines
+	let first_line = out.ops.len();
 	out.line(lines[0].clone(), "case".into(), Ok(()), false);
 	out.count(&format!("case.path={}", h.assembly.name()));
 	out.count(if drop_only { "case.kind=drop_only" } else { "case.kind=stop" });
@@ -573,6 +603,9 @@ async fn run_case(lines: &[String], out: &mut Out) -> bool {
 	}
 	if h.close_hdr {
 		out.count("case.opt.connection_close_header");
+	}
+	if h.ping_short {
+		out.count("case.opt.ping_with_short_limits_and_long_drain");
 	}
 	if h.own_rt {
 		out.count("case.opt.own_runtime_torn_down_at_resolution");
@@ -671,7 +704,16 @@ async fn run_case(lines: &[String], out: &mut Out) -> bool {
 			}
 		}
 	}
-	let ok = orc.is_ok() && run.failed.is_none();
+	// Real-time scheduling decides one thing the property does not speak about: with pings enabled
+	// the server ends a session whose client did not answer in time.  If that happened BEFORE any
+	// stop / drop (the harness was stalled for longer than the inactivity limit) the history is
+	// not a history of a graceful stop: inconclusive, reported as not executed.
+	let inactivity_close = (h.ping_short || h.ping)
+		&& run.conns.iter().any(|(c, x)| {
+			!x.gone && x.tr == Tr::Ws && log.iter().position(|l| *l == format!("eof {c}")).map(|e| stop_at.map(|s| e < s).unwrap_or(true)).unwrap_or(false)
+		});
+	let ok = (orc.is_ok() && run.failed.is_none()) || inactivity_close;
+	let orc = if inactivity_close { Ok(()) } else { orc };
 	if stop_at.is_some() {
 		out.nontrivial.insert(fxhash(sig.as_bytes()));
 	}
@@ -693,6 +735,13 @@ async fn run_case(lines: &[String], out: &mut Out) -> bool {
 		rt.shutdown_background();
 	}
 	SLOW_READER.store(false, std::sync::atomic::Ordering::Relaxed);
+	if inactivity_close {
+		out.count("inconclusive.session_closed_for_inactivity_before_stop");
+		for i in first_line..out.ops.len() {
+			out.impl_[i] = "#skip".into();
+			out.oracle[i] = "ok".into();
+		}
+	}
 	ok
 }
 
@@ -990,6 +1039,53 @@ fn gen_big_case(rng: &mut Rng, n: u64) -> Vec<String> {
 	l
 }
 
+/// Pings enabled with limits far below the length of the drain (interval 250 ms, inactive_limit
+/// 1000 ms, max_failures 2), a live client that answers every ping, and a drain that lasts several
+/// multiples of inactive_limit x max_failures: the calls executing at the stop are released only
+/// 5-5.5 s after it.  No timer of the ping machinery may cut the drain short — the client is there
+/// and waits.  (Margins are wide on purpose: only a stall of the harness of more than a second could
+/// let the server drop the session before the stop, and that is reported as inconclusive.)
+fn gen_ping_drain_case(rng: &mut Rng, n: u64, pre_idle: bool) -> Vec<String> {
+	let asm = *rng.pick(&[Assembly::Server, Assembly::Tower, Assembly::LowLevel]);
+	let mut l = vec![format!("case {n} stop cap={} path={} opts=pingshort", rng.pick(&[1u32, 2, 16]), asm.name())];
+	l.push("st open 1 ws".into());
+	let two = rng.chance(1, 2);
+	if two {
+		l.push(format!("st open 2 {}", if rng.chance(1, 2) { "ws" } else { "http" }));
+	}
+	if rng.chance(1, 3) {
+		l.push("st sub 1 5001".into());
+		l.push("st wsub 5001".into());
+	}
+	let ncalls = rng.range(1, 3);
+	let calls: Vec<u64> = (11..11 + ncalls).collect();
+	for k in &calls {
+		l.push(if rng.chance(1, 4) { format!("st send 1 {k} block") } else { format!("st send 1 {k}") });
+		l.push(format!("st wstart {k}"));
+	}
+	if two {
+		l.push("st send 2 91".into());
+		l.push("st wstart 91".into());
+	}
+	if pre_idle && rng.chance(1, 2) {
+		// alive and idle for a moment before the stop (at most two ping intervals)
+		l.push(format!("st sleep {}", rng.range(300, 500)));
+	}
+	l.push("st stop".into());
+	l.push(format!("st sleep {}", rng.range(5000, 5500)));
+	l.push("st isstopped".into());
+	l.push("st relall".into());
+	for k in &calls {
+		l.push(format!("st wresp {k}"));
+	}
+	if two {
+		l.push("st wresp 91".into());
+	}
+	l.push("st wres".into());
+	l.push("st end".into());
+	l
+}
+
 fn split_cases(lines: Vec<String>) -> Vec<Vec<String>> {
 	let mut cases: Vec<Vec<String>> = vec![];
 	for l in lines {
@@ -1027,6 +1123,10 @@ fn main() {
 			cases.push(gen_big_case(&mut rng, n));
 			n += 1;
 		}
+		for _ in 0..(if thorough { 12 } else { 3 }) {
+			cases.push(gen_ping_drain_case(&mut rng, n, thorough));
+			n += 1;
+		}
 		while (cases.len() as u64) < total {
 			// one base history, `stop` at EVERY position of it (thorough) / at a few positions (quick)
 			nbase += 1;
@@ -1052,14 +1152,41 @@ fn main() {
 	let rt = runtime();
 	rt.block_on(async {
 		let mut failing = 0;
-		for c in &cases {
-			if !run_case(c, &mut out).await {
-				failing += 1;
-				if failing >= 5 {
-					out.notes.push("stopped after 5 failing cases".into());
-					break;
+		// the long-drain cases mostly sleep: they run side by side (own server, own port, own log each)
+		let (slow_cases, fast_cases): (Vec<_>, Vec<_>) = cases.iter().partition(|c| c[0].contains("opts=pingshort"));
+		let slow = async {
+			let outs = futures_util::future::join_all(slow_cases.iter().map(|c| async move {
+				let mut o = Out::new();
+				let ok = run_case(c, &mut o).await;
+				(o, ok)
+			}))
+			.await;
+			outs
+		};
+		let fast = async {
+			let mut o = Out::new();
+			std::mem::swap(&mut o, &mut out);
+			for c in &fast_cases {
+				if !run_case(c, &mut o).await {
+					failing += 1;
+					if failing >= 5 {
+						o.notes.push("stopped after 5 failing cases".into());
+						break;
+					}
 				}
 			}
+			o
+		};
+		let (slow_outs, fast_out) = tokio::join!(slow, fast);
+		out = fast_out;
+		for (o, _ok) in slow_outs {
+			out.ops.extend(o.ops);
+			out.impl_.extend(o.impl_);
+			out.oracle.extend(o.oracle);
+			for (k, v) in o.dist {
+				*out.dist.entry(k).or_insert(0) += v;
+			}
+			out.nontrivial.extend(o.nontrivial);
 		}
 	});
 	out.notes.push(
